@@ -188,7 +188,6 @@ impl Parser {
             TokenKind::Break => self.break_stmt(),
             TokenKind::Function => self.func_def_stmt(),
             TokenKind::Return => self.return_stmt(),
-            TokenKind::At => todo!(),
             TokenKind::Comment => self.comment_block(),
             TokenKind::Import => self.module_import_stmt(),
             TokenKind::EOT => Ok(Stmt::EOS(line, file_name)),
